@@ -244,4 +244,8 @@ def run(c, prog):
     from . import C01_alg, C15
     C01_alg.run(core.Alias(c, "C04"), prog)
     C15.rule_sites(core.Alias(c, "C04"), prog, full=False)
+    # the reader consumes the documented layout: decoder arms are dual to the encoder arms (C01.arm) and those equal the document (C03.gram)
+    from . import C01_arm, C03_gram
+    C01_arm.run(core.Alias(c, "C04"), prog)
+    C03_gram.run(c, prog, R="C04.gram")
     c.not_decided += ["equality of the decoded DOM with the one described, for every foreign encoding (a run)", "third-party decompressors"]
